@@ -1,6 +1,7 @@
 import TantivyModel.Proofs.GrammarFold
 import TantivyModel.Proofs.GrammarSimplify
 import TantivyModel.Proofs.GrammarChars
+import TantivyModel.Proofs.GrammarCharsPrint
 import TantivyModel.Model.Grammar.Agree
 /-!
 # C16 — The query parser is total and implements its documented grammar
@@ -259,9 +260,21 @@ theorem C16_strict_panic_witness :
     pAst false 4 ['+', ' ', '*'] = .panic ∧ pAst true 4 ['+', ' ', '*'] = .fail := ⟨rfl, rfl⟩
 
 /- Full statement (not proved): `C16_print_parse : ∀ q canonical, parseStrict (print q) = .tree (rewrite (build q))`
-   for a printer of abstract queries. Proved part: the documented concrete forms below, each a
-   kernel-checked evaluation of the model parser (the general statement over all words needs
-   unfolding lemmas for the character-literal matchers, which time out in `whnf`). -/
+   for a printer of abstract queries. Proved parts: (1) the ∀ form at leaf level — every word of
+   ASCII letters and digits that is not a keyword (`C16_print_parse_leaf`, through step lemmas for
+   each matcher: `wordRest`, `word`, `fieldName`, `range`, `set`, `exists_`, `regex`, `simpleTerm`,
+   `plainLiteral`, `pLeaf`, `pOccurLeaf`, `pAst`, for every fuel ≥ 3); (2) the documented concrete
+   forms below as kernel-checked evaluations. Groups by induction need the same step lemmas with a
+   non-empty remainder (`w ++ ' ' :: rest`) and are not done. -/
+/-- **print/parse at leaf level, for all words**: the strict parser (with or without the guard)
+    reads a word of ASCII letters and digits that is not `OR`/`AND`/`NOT`/`IN` as the unfielded,
+    unquoted literal with exactly that text -/
+theorem C16_print_parse_leaf (guard : Bool) (w : Str) (h : PlainWord w) :
+    parseStrictWith guard w = .tree (.leaf (.literal none w .none 0 false)) :=
+  parseStrictWith_plain guard w h
+
+example : PlainWord ['a', 'b', 'c'] := plainWord_abc
+
 /-- `C16_print_parse_partial`: the documented forms parse to the documented trees -/
 theorem C16_print_parse_partial :
     pAst false 4 ['a', 'b', 'c'] = .ok (.leaf (.literal none ['a', 'b', 'c'] .none 0 false)) []
